@@ -659,7 +659,7 @@ def array_ufunc(ufunc, method, inputs, out, kwargs):
             r = _elementwise(lambda a, b: getattr(_lift_for_method(a, sd0), nm)(_lift_for_method(b, sd0)), *pin)
             return _apply_shadow(r, shadow_dtype(ufunc, inputs, {}))
         if ufunc is np.sign:
-            r = _elementwise(lambda a: S.as_sc(a).sign() if not isinstance(a, BVS) else a, *pin)
+            r = _elementwise(lambda a: a.sign() if isinstance(a, Dual) else (S.as_sc(a).sign() if not isinstance(a, BVS) else a), *pin)
             return wrap(r, sds[0])
         if ufunc in (np.absolute, np.fabs):
             r = _elementwise(lambda a: abs(a), *pin)
